@@ -54,7 +54,7 @@ func NewPair(prog *hast.Program, scripts []string, o PairOpts, garbage *core.Ran
 	if o.UseDefaultStore {
 		p.Def = variable.NewInMemoryStorer()
 		for k, v := range o.Pre {
-			hostWrite(p.Def, k, v)
+			storeWrite(p.Def, k, v)
 		}
 		st = p.Def
 	} else {
@@ -73,7 +73,7 @@ func NewPair(prog *hast.Program, scripts []string, o PairOpts, garbage *core.Ran
 	return p, nil, ""
 }
 
-func hostWrite(st variable.Storer, name string, v model.Val) {
+func storeWrite(st variable.Storer, name string, v model.Val) {
 	switch v.T {
 	case hast.TNum:
 		st.SetNumberValue(name, v.N)
@@ -90,7 +90,7 @@ func (p *Pair) HostWrite(name string, v model.Val) {
 	if p.Rec != nil {
 		p.Rec.HostSet(name, v)
 	} else {
-		hostWrite(p.Def, name, v)
+		storeWrite(p.Def, name, v)
 	}
 	p.Trace = append(p.Trace, fmt.Sprintf("host writes $%s = %s", name, v))
 }
@@ -158,6 +158,19 @@ func (p *Pair) Step(choice int) (want model.Outcome, got mon.Obs, diff string) {
 	}
 	if p.Rec != nil && len(p.Rec.TypeChanges) > 0 {
 		return want, got, "a variable was written under a second type: " + strings.Join(p.Rec.TypeChanges, "; ")
+	}
+	if p.Def != nil {
+		// the default store's typed view, read through the verif hook
+		nums, bools, strs := p.Def.VerifTypedNames()
+		seen := map[string]string{}
+		for kind, list := range map[string][]string{"number": nums, "boolean": bools, "string": strs} {
+			for _, n := range list {
+				if other, dup := seen[n]; dup {
+					return want, got, fmt.Sprintf("the store reports $%s under two types (%s and %s)", n, other, kind)
+				}
+				seen[n] = kind
+			}
+		}
 	}
 	return want, got, ""
 }
